@@ -3,6 +3,16 @@ package main
 // C16: stop groups, frontend life-cycles and reload against the real code.
 
 import (
+	"crypto/tls"
+	"path/filepath"
+	"os"
+	"math/big"
+	"encoding/pem"
+	"crypto/x509/pkix"
+	"crypto/x509"
+	crand "crypto/rand"
+	"crypto/elliptic"
+	"crypto/ecdsa"
 	"context"
 	"encoding/binary"
 	"errors"
@@ -156,8 +166,32 @@ func newStoreLogic() (storage.PeerStore, *middleware.Logic) {
 }
 
 // life.http scenario=<immediate|gated|traffic> : observations of the real HTTP frontend
-func lifeHTTP(c *Ctx, scenario string, delayUs int) {
-	op := fmt.Sprintf("life.http scenario=%s delay=%d", scenario, delayUs)
+func lifeHTTP(c *Ctx, scenario string, delayUs int) { lifeHTTPL(c, scenario, delayUs, "http") }
+
+// selfSigned writes a throw-away certificate and key and returns their paths (and the directory to remove)
+func selfSigned() (string, string, string) {
+	dir, err := os.MkdirTemp("", "verif-tls-")
+	if err != nil {
+		panic(err)
+	}
+	key, _ := ecdsa.GenerateKey(elliptic.P256(), crand.Reader)
+	tpl := &x509.Certificate{SerialNumber: big.NewInt(1), Subject: pkix.Name{CommonName: "127.0.0.1"}, NotBefore: time.Now().Add(-time.Hour), NotAfter: time.Now().Add(time.Hour),
+		IPAddresses: []net.IP{net.IPv4(127, 0, 0, 1)}, KeyUsage: x509.KeyUsageDigitalSignature, ExtKeyUsage: []x509.ExtKeyUsage{x509.ExtKeyUsageServerAuth}}
+	der, err := x509.CreateCertificate(crand.Reader, tpl, tpl, &key.PublicKey, key)
+	if err != nil {
+		panic(err)
+	}
+	kb, _ := x509.MarshalECPrivateKey(key)
+	cp, kp := filepath.Join(dir, "cert.pem"), filepath.Join(dir, "key.pem")
+	_ = os.WriteFile(cp, pem.EncodeToMemory(&pem.Block{Type: "CERTIFICATE", Bytes: der}), 0o600)
+	_ = os.WriteFile(kp, pem.EncodeToMemory(&pem.Block{Type: "EC PRIVATE KEY", Bytes: kb}), 0o600)
+	return cp, kp, dir
+}
+
+// listeners = http | https | both: which of addr / https_addr the frontend is configured with
+func lifeHTTPL(c *Ctx, scenario string, delayUs int, listeners string) {
+	op := fmt.Sprintf("life.http scenario=%s delay=%d listeners=%s", scenario, delayUs, listeners)
+	c.Begin(op)
 	obs := func() (o string) {
 		defer func() {
 			if p := recover(); p != nil {
@@ -179,7 +213,19 @@ func lifeHTTP(c *Ctx, scenario string, delayUs int) {
 		}
 		port := freePort()
 		addr := fmt.Sprintf("127.0.0.1:%d", port)
-		fe, err := httpfe.NewFrontend(gl, httpfe.Config{Addr: addr, AnnounceRoutes: []string{"/announce"}, ScrapeRoutes: []string{"/scrape"}, ReadTimeout: time.Second, WriteTimeout: time.Second})
+		cfg := httpfe.Config{Addr: addr, AnnounceRoutes: []string{"/announce"}, ScrapeRoutes: []string{"/scrape"}, ReadTimeout: time.Second, WriteTimeout: time.Second}
+		addrs := []string{addr}
+		if listeners != "http" {
+			cp, kp, dir := selfSigned()
+			defer os.RemoveAll(dir)
+			cfg.TLSCertPath, cfg.TLSKeyPath = cp, kp
+			cfg.HTTPSAddr = fmt.Sprintf("127.0.0.1:%d", freePort())
+			addrs = append(addrs, cfg.HTTPSAddr)
+			if listeners == "https" {
+				cfg.Addr, addrs = "", addrs[1:]
+			}
+		}
+		fe, err := httpfe.NewFrontend(gl, cfg)
 		if err != nil {
 			return "new-failed"
 		}
@@ -190,7 +236,10 @@ func lifeHTTP(c *Ctx, scenario string, delayUs int) {
 		if scenario != "immediate" {
 			// wait until it serves, then announce once
 			url := "http://" + addr + "/announce?info_hash=aaaaaaaaaaaaaaaaaaaa&peer_id=bbbbbbbbbbbbbbbbbbbb&port=6881&left=5&downloaded=0&uploaded=0"
-			cl := &http.Client{Timeout: 2 * time.Second, Transport: &http.Transport{DisableKeepAlives: true}}
+			if listeners == "https" {
+				url = "https://" + addrs[0] + "/announce?info_hash=aaaaaaaaaaaaaaaaaaaa&peer_id=bbbbbbbbbbbbbbbbbbbb&port=6881&left=5&downloaded=0&uploaded=0"
+			}
+			cl := &http.Client{Timeout: 2 * time.Second, Transport: &http.Transport{DisableKeepAlives: true, TLSClientConfig: &tls.Config{InsecureSkipVerify: true}}}
 			for i := 0; i < 200; i++ {
 				resp, err := cl.Get(url)
 				if err == nil {
@@ -228,9 +277,11 @@ func lifeHTTP(c *Ctx, scenario string, delayUs int) {
 		usedStopped := atomic.LoadInt32(&gl.panicked) > 0
 		// once Stop has completed: the listener must be closed and nothing may still be running
 		listening := false
-		if conn, err := net.DialTimeout("tcp", addr, 200*time.Millisecond); err == nil {
-			conn.Close()
-			listening = true
+		for _, a := range addrs {
+			if conn, err := net.DialTimeout("tcp", a, 200*time.Millisecond); err == nil {
+				conn.Close()
+				listening = true
+			}
 		}
 		return fmt.Sprintf("stopped=1 errs=%d listening=%s stop_returned_while_posthook_running=%s served=%d store_used_after_stop=%s", len(errs), b01(listening), b01(stoppedWhileGated), served, b01(usedStopped))
 	}()
@@ -390,7 +441,11 @@ func replayC16(c *Ctx, op string, a map[string]string) {
 	case "grp.stop":
 		grpStop(c, a["members"])
 	case "life.http":
-		lifeHTTP(c, a["scenario"], d)
+		ls := a["listeners"]
+		if ls == "" {
+			ls = "http"
+		}
+		lifeHTTPL(c, a["scenario"], d, ls)
 	case "life.udp":
 		lifeUDP(c, a["scenario"], d)
 	case "life.reload":
@@ -434,6 +489,7 @@ func runC16(c *Ctx) {
 	}
 	for i := 0; i < k/2+1; i++ {
 		lifeHTTP(c, "gated", 0)
+		lifeHTTPL(c, []string{"immediate", "gated", "traffic"}[i%3], 0, []string{"both", "https"}[(i/3)%2])
 		lifeUDP(c, "gated", 0)
 		lifeHTTP(c, "traffic", 0)
 		lifeUDP(c, "traffic", 0)
